@@ -191,7 +191,7 @@ def record(req):
           "centers": [q3(c, u) for c in req.get("centers", [req.get("center", req["start"])])], "r": q(req.get("r", 0.0), u),
           "turns": int(req.get("turns", 1)), "far": bool(req.get("far", False)), "len": q(req.get("len", 0.0), u),
           "minor": req.get("minor", "any"), "controls": [q3(p, u) for p in req.get("controls", [])], "onlyA": only,
-          "cr": bool(req.get("cr", False)),
+          "cr": bool(req.get("cr", False)), "invalid": bool(req.get("invalid", False)),
           "outA": outA, "outR": outR, "outH": outH, "linesA": la, "linesR": lr, "linesH": lh}
     return ev
 
@@ -225,6 +225,30 @@ def gen_far(rng):
     t = [c[0] + r * math.cos(a1), c[1] + r * math.sin(a1), 0.0]
     return {"shape": "arc", "res": res, "ccw": ccw, "start": s, "target": t, "center": c, "centers": [c], "r": r,
             "hasz": False, "far": True, "len": r * sweep, "turns": 1, "dp": 3, "only_abs": True, "warm": False}
+
+
+def off_circle(rng, n=8):
+    """arc() requests whose target is NOT on the circle through the start: off by 4-9 thousandths radially, the way coordinates
+    rounded by a CAM program are (added after seed C10k: such targets accepted with a tolerance of 0.01 while the curve kept
+    the start's radius -- the path ended beside its target).  The request is not valid, so refusing it is in order
+    (`invalid`); if it is carried out, every clause applies: above all the path must end ON the requested target.  Recorded
+    at 3 decimals, absolute run only."""
+    out = []
+    for _ in range(n):
+        res = rng.choice([0.1, 0.2])                # in thousandths: (1.05 res)^2 scaled by 10^4 must fit as well
+        r = rng.uniform(3.0, 9.0)                  # small: squared distances in thousandths must fit TLC's integers
+        ccw = rng.random() < 0.5
+        a0 = rng.uniform(-math.pi, math.pi)
+        s = [round(rng.uniform(-5, 5), 3), round(rng.uniform(-5, 5), 3), round(rng.uniform(-3, 3), 1)]
+        c = [s[0] - r * math.cos(a0), s[1] - r * math.sin(a0), s[2]]
+        sweep = rng.uniform(0.6, 2.6)
+        a1 = a0 + (1.0 if ccw else -1.0) * sweep
+        r1 = r + rng.choice([-1, 1]) * rng.uniform(0.004, 0.009)
+        t = [round(c[0] + r1 * math.cos(a1), 3), round(c[1] + r1 * math.sin(a1), 3), s[2]]
+        out.append({"shape": "arc", "res": res, "ccw": ccw, "start": s, "target": t, "center": c, "centers": [c], "r": r,
+                    "hasz": False, "far": False, "len": r * sweep, "turns": 1, "dp": 3, "only_abs": True, "warm": False,
+                    "invalid": True})
+    return out
 
 
 def small_loops(rng, n=8):
